@@ -1,14 +1,228 @@
 /-
   SpecKitV.Drv.ExtEntryPoints — driver operations of the generated region `EntryPoints` (extension point: `dispatch op` returns
-  `some handler` for the operations this file serves).  Mathlib-free.
+  `some handler` for the operations this file serves).  Mathlib-free.  Every operation executes a GENERATED definition
+  (`Gen/EntryPoints.lean`) at `Float` / on strings:
+
+    ep_init    iscsd fs nkeys (key value)*          -> <modelled 0|1> RAISE   |   <modelled 0|1> OK <nf> <len> <iscsd> <fs> nkeys (key value)*
+    ep_entry   lpsd|compute_spectrum data fs nkw (k v)*                 -> the call trace
+    ep_entry   compute_single_bin data fs freq fres L nkw (k v)*        -> the call trace
+    ep_backend cuda numba K hint                    -> ok <name> | raise <class>
+    ep_bounds  N L n s*                             -> ok | raise <class>
+
+  value grammar (tokens):  bv n (0|1)* | iv n int* | fv n hex* | cv n (hex hex)* | li n item* | tu n item* | ov n item* | om r m num*(r*m)
+                           | sc num | op id
+  item:  N | n num | l k num* | t k num* | i k int* | f k hex* | z int | r k num* | o id
+  num:   b0 | b1 | i<int> | r<hex> | c<hex>,<hex>
 -/
 import SpecKitV.Drv.Base
+import SpecKitV.Gen.EntryPoints
 
 namespace Drv.ExtEntryPoints
 open Drv
 
+def parseNum (t : String) : Except String (EP.Num Float) :=
+  if t == "b0" then .ok (.bool false)
+  else if t == "b1" then .ok (.bool true)
+  else if t.startsWith "i" then
+    match (t.drop 1).toString.toInt? with
+    | some z => .ok (.int z)
+    | none => .error s!"num:{t}"
+  else if t.startsWith "r" then
+    match parseHex (t.drop 1).toString with
+    | some u => .ok (.real (Float.ofBits u))
+    | none => .error s!"num:{t}"
+  else if t.startsWith "c" then
+    match (t.drop 1).toString.splitOn "," with
+    | [a, b] =>
+      match parseHex a, parseHex b with
+      | some u, some w => .ok (.cplx ⟨Float.ofBits u, Float.ofBits w⟩)
+      | _, _ => .error s!"num:{t}"
+    | _ => .error s!"num:{t}"
+  else .error s!"num:{t}"
+
+def num : M (EP.Num Float) := do
+  let t ← tok
+  match parseNum t with
+  | .ok x => return x
+  | .error e => throw e
+
+def listOf {β : Type} (p : M β) : M (List β) := do
+  let n ← nat
+  let mut a : Array β := Array.mkEmpty n
+  for _ in [0:n] do
+    a := a.push (← p)
+  return a.toList
+
+def item : M (EP.Item Float) := do
+  let t ← tok
+  match t with
+  | "N" => return .none
+  | "n" => return .num (← num)
+  | "l" => return .pylist (← listOf num)
+  | "t" => return .pytuple (← listOf num)
+  | "i" => return .ivec (← listOf int)
+  | "f" => return .fvec (← listOf flt)
+  | "z" => return .ivec0 (← int)
+  | "r" => return .objrow (← listOf num)
+  | "o" => return .opaque (← nat)
+  | _ => throw s!"item:{t}"
+
+def cx : M (Cx Float) := do
+  let a ← flt
+  let b ← flt
+  return ⟨a, b⟩
+
+def boolTok : M Bool := do
+  let n ← nat
+  return n != 0
+
+def value : M (EP.Val Float) := do
+  let t ← tok
+  match t with
+  | "bv" => return .bvec (← listOf boolTok)
+  | "iv" => return .ivec (← listOf int)
+  | "fv" => return .fvec (← listOf flt)
+  | "cv" => return .cvec (← listOf cx)
+  | "li" => return .pylist (← listOf item)
+  | "tu" => return .pytuple (← listOf item)
+  | "ov" => return .objvec (← listOf item)
+  | "om" =>
+    let r ← nat
+    let m ← nat
+    let mut rows : Array (List (EP.Num Float)) := #[]
+    for _ in [0:r] do
+      let mut row : Array (EP.Num Float) := #[]
+      for _ in [0:m] do
+        row := row.push (← num)
+      rows := rows.push row.toList
+    return .objmat m rows.toList
+  | "sc" => return .scalar (← num)
+  | "op" => return .opaque (← nat)
+  | _ => throw s!"value:{t}"
+
+def showNum : EP.Num Float → String
+  | .bool b => if b then "b1" else "b0"
+  | .int z => s!"i{z}"
+  | .real x => "r" ++ fmt x
+  | .cplx z => "c" ++ fmt z.re ++ "," ++ fmt z.im
+
+def showNums (xs : List (EP.Num Float)) : String := s!"{xs.length}" ++ String.join (xs.map (fun x => " " ++ showNum x))
+def showInts (xs : List Int) : String := s!"{xs.length}" ++ String.join (xs.map (fun x => s!" {x}"))
+def showFlts (xs : List Float) : String := s!"{xs.length}" ++ String.join (xs.map (fun x => " " ++ fmt x))
+
+def showItem : EP.Item Float → String
+  | .none => "N"
+  | .num x => "n " ++ showNum x
+  | .pylist xs => "l " ++ showNums xs
+  | .pytuple xs => "t " ++ showNums xs
+  | .ivec v => "i " ++ showInts v
+  | .fvec v => "f " ++ showFlts v
+  | .ivec0 z => s!"z {z}"
+  | .objrow xs => "r " ++ showNums xs
+  | .opaque i => s!"o {i}"
+
+def showItems (xs : List (EP.Item Float)) : String := s!"{xs.length}" ++ String.join (xs.map (fun x => " " ++ showItem x))
+
+def showVal : EP.Val Float → String
+  | .bvec v => s!"bv {v.length}" ++ String.join (v.map (fun b => if b then " 1" else " 0"))
+  | .ivec v => "iv " ++ showInts v
+  | .fvec v => "fv " ++ showFlts v
+  | .cvec v => s!"cv {v.length}" ++ String.join (v.map (fun z => " " ++ fmt z.re ++ " " ++ fmt z.im))
+  | .pylist xs => "li " ++ showItems xs
+  | .pytuple xs => "tu " ++ showItems xs
+  | .objvec xs => "ov " ++ showItems xs
+  | .objmat m rows => s!"om {rows.length} {m}" ++ String.join (rows.map (fun r => String.join (r.map (fun x => " " ++ showNum x))))
+  | .scalar x => "sc " ++ showNum x
+  | .opaque i => s!"op {i}"
+
+def dict : M (EP.Dict Float) := do
+  let n ← nat
+  let mut d : Array (String × EP.Val Float) := #[]
+  for _ in [0:n] do
+    let k ← tok
+    let v ← value
+    d := d.push (k, v)
+  return d.toList
+
+def showDict (d : EP.Dict Float) : String := s!"{d.length}" ++ String.join (d.map (fun kv => " " ++ kv.1 ++ " " ++ showVal kv.2))
+
+def opInit : M String := do
+  let iscsd ← boolTok
+  let fs ← flt
+  let d ← dict
+  let m := if EP.modelled d then "1" else "0"
+  match Gen.result_init (α := Float) d () iscsd fs with
+  | none => return m ++ " RAISE"
+  | some r =>
+    return s!"{m} OK {r.nf} {Gen.result_len r} {if r.iscsd then 1 else 0} {fmt r.fs} " ++ showDict r.data
+
+def kwList : M (List (String × String)) := do
+  let n ← nat
+  let mut a : Array (String × String) := #[]
+  for _ in [0:n] do
+    let k ← tok
+    let v ← tok
+    a := a.push (k, v)
+  return a.toList
+
+def showArgs (a : EP.CallArgs String) : String :=
+  "(" ++ ",".intercalate (a.pos ++ a.kw.map (fun kv => kv.1 ++ "=" ++ kv.2)) ++ ")"
+
+/-- the abstract callables record the call: the constructor returns the text of the construction, a method appends its own call -/
+def ctorRec (a : EP.CallArgs String) : Except String String := .ok ("SpectrumAnalyzer" ++ showArgs a)
+def methodRec (m : String) (recv : String) (a : EP.CallArgs String) : Except String String := .ok (recv ++ "." ++ m ++ showArgs a)
+
+def opEntry : M String := do
+  let which ← tok
+  let data ← tok
+  let fs ← tok
+  let r ← match which with
+    | "lpsd" => do
+      let kw ← kwList
+      pure (Gen.lpsd ctorRec methodRec data fs kw)
+    | "compute_spectrum" => do
+      let kw ← kwList
+      pure (Gen.compute_spectrum ctorRec methodRec data fs kw)
+    | "compute_single_bin" => do
+      let freq ← tok
+      let fres ← tok
+      let L ← tok
+      let kw ← kwList
+      pure (Gen.compute_single_bin ctorRec methodRec data fs freq fres L kw)
+    | _ => throw s!"entry:{which}"
+  match r with
+  | .ok s => return s
+  | .error e => return "ERROR " ++ e
+
+def showExc : EP.PyExc → String
+  | .ValueError => "ValueError"
+  | .RuntimeError => "RuntimeError"
+  | .TypeError => "TypeError"
+  | .Other => "Other"
+
+def opBackend : M String := do
+  let cuda ← boolTok
+  let numba ← boolTok
+  let K ← int
+  let hint ← tok
+  match Gen._select_backend cuda numba K hint with
+  | .ok s => return "ok " ++ s
+  | .error e => return "raise " ++ showExc e
+
+def opBounds : M String := do
+  let N ← int
+  let L ← int
+  let starts ← listOf int
+  match Gen._check_starts_bounds N starts L with
+  | .ok _ => return "ok"
+  | .error e => return "raise " ++ showExc e
+
 def dispatch (op : String) : Option (M String) :=
   match op with
+  | "ep_init" => some opInit
+  | "ep_entry" => some opEntry
+  | "ep_backend" => some opBackend
+  | "ep_bounds" => some opBounds
   | _ => none
 
 end Drv.ExtEntryPoints
